@@ -54,13 +54,20 @@ def _tool_fingerprint():
 def _shard(args):
     i, seed, sim_args, out, tmo = args
     t0 = time.time()
+    # Badger directories of the harness go to a per-shard temporary directory that is removed afterwards, also when the
+    # harness was killed by the timeout
+    tmpd = out + ".tmp"
+    os.makedirs(tmpd, exist_ok=True)
+    env = dict(vlib.GOENV, TMPDIR=tmpd)
     with open(out, "w") as fo:
         try:
             p = subprocess.run([vlib.exe("sim"), "-seed", str(seed)] + [str(a) for a in sim_args],
-                               stdout=fo, stderr=subprocess.PIPE, env=vlib.GOENV, timeout=tmo)
+                               stdout=fo, stderr=subprocess.PIPE, env=env, timeout=tmo)
             sim_rc, sim_err = p.returncode, p.stderr.decode("utf-8", "replace")[-2000:]
         except subprocess.TimeoutExpired:
             sim_rc, sim_err = 124, "sim did not finish within %d s (args: %s)" % (tmo, " ".join(str(a) for a in sim_args))
+    import shutil
+    shutil.rmtree(tmpd, ignore_errors=True)
     t1 = time.time()
     with open(out) as fi:
         try:
